@@ -73,6 +73,31 @@ Proof.
   eapply Forall_impl; [|exact Hin]. cbn. intros a [Ha _]. lia.
 Qed.
 
+Lemma last_off_max' : forall rs lo d r, increasing lo rs -> In r rs -> r_off r <= last_off rs d.
+Proof.
+  induction rs as [|x t IH]; intros lo d r Hi Hr; [destruct Hr|].
+  destruct Hi as [H1 H2]. cbn [last_off]. destruct Hr as [->|Hr].
+  - destruct t as [|y t']; [cbn; lia|].
+    pose proof (IH _ (r_off r) y H2 (or_introl eq_refl)). destruct H2 as [H2 _]. lia.
+  - apply (IH _ _ r H2 Hr).
+Qed.
+
+(* the batches before the one that answers a fetch at o hold only records below o *)
+Lemma pre_below_gen o : forall pre lo,
+  Forall pbatch_ok pre -> Forall (fun b => pb_last b < o) pre -> increasing lo (flat_map pb_recs pre) ->
+  Forall (fun r => r_off r < o) (flat_map pb_recs pre).
+Proof.
+  induction pre as [|b t IH]; intros lo Hp Hl Hi; [constructor|].
+  apply Forall_cons_iff in Hp as [Hpb Hp]. apply Forall_cons_iff in Hl as [Hlb Hl].
+  cbn [flat_map] in *. apply Forall_app. split.
+  - unfold pb_last in Hlb. destruct (pb_fmt b =? 2).
+    + destruct Hpb as (_ & _ & _ & _ & _ & Hin & _).
+      eapply Forall_impl; [|exact Hin]. cbn. intros a [Ha _]. lia.
+    + pose proof (increasing_app_l _ _ _ Hi) as Hib.
+      apply Forall_forall. intros r Hr. pose proof (last_off_max' _ _ (pb_base b + pb_lod b) r Hib Hr). lia.
+  - destruct (increasing_app_r _ _ _ Hi) as [lo2 Hi2]. apply (IH lo2 Hp Hl Hi2).
+Qed.
+
 Lemma filter_all_false {A} (f : A -> bool) l : Forall (fun x => f x = false) l -> filter f l = [].
 Proof. induction 1 as [|x t Hx _ IH]; [reflexivity|]. cbn. rewrite Hx. exact IH. Qed.
 
@@ -91,7 +116,7 @@ Notation plen_of := (plen_of compress).
 
 Theorem batch_decode_exact_v2 log l o k hwm :
   log_ok log -> layout_ok log l ->
-  Forall (fun b => pb_fmt b = 2) l -> Forall v2ok l ->
+  Forall (fun b => pb_fmt b = 2) (from_offset l o) -> Forall v2ok (from_offset l o) ->
   from_offset l o <> [] -> valid_cut compress l o k -> hwm <> o ->
   forall fuel, (S (tokens [] (from_offset l o)) <= fuel)%nat ->
   exists ms f,
@@ -103,9 +128,8 @@ Proof.
   set (bs := from_offset l o) in *.
   destruct bs as [|b1 bs'] eqn:Ebs; [contradiction|].
   (* everything about the suffix *)
-  assert (Hfmt_bs : Forall (fun b => pb_fmt b = 2) (b1 :: bs')) by (rewrite Hsplit in Hfmt; apply Forall_app in Hfmt; apply Hfmt).
-  assert (Hfmt_pre : Forall (fun b => pb_fmt b = 2) pre) by (rewrite Hsplit in Hfmt; apply Forall_app in Hfmt; apply Hfmt).
-  assert (Hv2_bs : Forall v2ok (b1 :: bs')) by (rewrite Hsplit in Hv2; apply Forall_app in Hv2; apply Hv2).
+  assert (Hfmt_bs : Forall (fun b => pb_fmt b = 2) (b1 :: bs')) by exact Hfmt.
+  assert (Hv2_bs : Forall v2ok (b1 :: bs')) by exact Hv2.
   assert (Hpb_bs : Forall pbatch_ok (b1 :: bs')) by (rewrite Hsplit in Hpb; apply Forall_app in Hpb; apply Hpb).
   assert (Hpb_pre : Forall pbatch_ok pre) by (rewrite Hsplit in Hpb; apply Forall_app in Hpb; apply Hpb).
   assert (Hlogsplit : log = flat_map pb_recs pre ++ flat_map pb_recs (b1 :: bs')).
@@ -185,7 +209,8 @@ Proof.
   assert (Hremp : flat_map pb_recs (b1 :: bs') = Rp ++ Rs) by (rewrite <- G1; unfold remp, p0; reflexivity).
   rewrite Hremp, filter_app.
   rewrite (filter_all_false _ (flat_map pb_recs pre)).
-  2:{ eapply Forall_impl; [|apply (pre_below o pre Hfmt_pre Hpb_pre Hpre)]. cbn. intros a Ha. lia. }
+  2:{ assert (Hip : increasing 0 (flat_map pb_recs pre)) by (rewrite Hlogsplit in Hlog2; apply (increasing_app_l _ _ _ Hlog2)).
+      eapply Forall_impl; [|apply (pre_below_gen o pre 0 Hpb_pre Hpre Hip)]. cbn. intros a Ha. lia. }
   rewrite (filter_all_false _ Rs).
   2:{ apply Forall_forall. intros r Hr. specialize (G4 r Hr). lia. }
   cbn [app]. rewrite app_nil_r. apply filter_ext_in'.
@@ -195,7 +220,7 @@ Qed.
 (* the link to L2: such a response is a legal answer in the sense of ReaderProofs.ev_ok *)
 Theorem contract_v2 log l k hwm fuel g :
   log_ok log -> layout_ok log l ->
-  Forall (fun b => pb_fmt b = 2) l -> Forall v2ok l ->
+  Forall (fun b => pb_fmt b = 2) (from_offset l (g_conn g)) -> Forall v2ok (from_offset l (g_conn g)) ->
   from_offset l (g_conn g) <> [] -> valid_cut compress l (g_conn g) k -> hwm <> g_conn g ->
   (S (tokens [] (from_offset l (g_conn g))) <= fuel)%nat ->
   ev_ok (fetch_run decomp fuel) log g
